@@ -8,7 +8,8 @@ args = sys.argv[1:]
 j = 4
 if args and args[0] == "-j":
     j = int(args[1]); args = args[2:]
-items = [a.split("=", 1) if "=" in a else (os.path.basename(os.path.dirname(a)) + "/" + os.path.basename(a), a) for a in args]
+items = [a.split("=", 1) if "=" in a else (os.path.basename(os.path.dirname(os.path.abspath(a))) + "/" + os.path.basename(a), a) for a in args]
+items = [(l, os.path.abspath(p)) for l, p in items]
 
 def one(it):
     label, patch = it
